@@ -18,5 +18,11 @@ let handle = function
     (match Reassemble.rfb_line (nn ahead) (nn limit) (chunks_of pieces) with
      | (Some l, rest) -> "OK " ^ hex_of_bytes l ^ " " ^ hex_of_bytes rest
      | (None, _) -> "ERR")
+  | ["crlf"; pieces] ->
+    let cs = chunks_of pieces in
+    let whole = CrLfCheck.ok_from false (Stdlib.List.concat cs) in
+    (match CrLfCheck.crlf_run false cs with
+     | Some _ -> if whole then "OK" else "MODEL-SPLIT"
+     | None -> if whole then "MODEL-SPLIT" else "ERR")
   | _ -> "MODEL-ERROR unknown op"
 let () = run handle
